@@ -48,6 +48,7 @@ func (c *compiler) compileParallel(file *ast.File, call *ast.CallExpr) *parallel
 		c.errf(c.nodePosition(call), "cff.Parallel expects at least one function")
 		return nil
 	}
+	c.checkContext("cff.Parallel", call.Args[0])
 
 	parallel := &parallel{
 		Ctx:     call.Args[0],
